@@ -39,7 +39,7 @@ def demo(d, meta):
         rc, out = sh("bash MUTANT/demo.sh 2>&1")
         return rc == 0, out[-1500:]
     cmd = meta.get("demo_command", "")
-    rc, out = sh("(" + cmd + ") 2>&1")
+    rc, out = sh("(" + cmd + "\n) 2>&1")       # newline: a demo_command may end in a # comment
     failed = ("test result: FAILED" in out) or ("error: test failed" in out) or ("could not compile" in out)
     passed = "test result: ok" in out
     return (passed and not failed), out[-1500:]
